@@ -2,6 +2,11 @@
 // file per case, in a subprocess with a time limit and an address-space limit, and report how it
 // ended.  Acceptable: exit status 0 (completed) or 1 (located rejection).  Everything else
 // (panic exit code 101, abort, signal, timeout) is reported as `abnormal <kind>`.
+// The first word (`completed` | `rejected` | `abnormal`) is compared with the end-to-end Lean model
+// (Model/Pipeline.lean).
+// `gen`: the cases the Lean generator cannot produce because it cannot read the repository: every
+// prefix (quick: a stride) and random multi-edit mutations of the sample PDFs under tests/test_files,
+// emitted as explicit `doc <hex>` lines so that the model sees the same bytes.
 use std::io::Write;
 use std::os::unix::process::ExitStatusExt;
 use std::process::{Command, Stdio};
@@ -16,45 +21,74 @@ fn printer() -> String {
     me.parent().unwrap().join("pdf_printer").to_string_lossy().to_string()
 }
 
+const SAMPLES: &[&str] = &["minimal.pdf", "minimal_leading_garbage.pdf", "Rosenthol_example.pdf", "Rosenthol_example_2pages.pdf"];
+
+fn sample(name: &str) -> Option<Vec<u8>> { std::fs::read(format!("{}/tests/test_files/{}", repo_dir(), name)).ok() }
+
+fn mutate(mut data: Vec<u8>, seed: u64, k: usize) -> Vec<u8> {
+    let mut r = Rng::new(seed);
+    let interesting: &[&[u8]] = &[b"-1", b"0", b"9223372036854775807", b"[", b"]", b"<<", b">>", b"R", b"/", b"(", b")"];
+    for _ in 0 .. k {
+        if data.is_empty() {
+            break
+        }
+        let pos = r.below(data.len());
+        match r.below(4) {
+            0 => data[pos] = r.below(256) as u8,
+            1 => {
+                data.remove(pos);
+            },
+            2 => {
+                let ins = interesting[r.below(interesting.len())];
+                for (j, b) in ins.iter().enumerate() {
+                    data.insert(pos + j, *b);
+                }
+            },
+            _ => {
+                // digit tweak: find next digit and change it
+                if let Some(off) = data[pos ..].iter().position(|b| b.is_ascii_digit()) {
+                    data[pos + off] = b'0' + (r.below(10) as u8);
+                }
+            },
+        }
+    }
+    data
+}
+
+fn gen(seed: u64, n: usize, tier: &str, emit: &mut dyn FnMut(String)) {
+    let stride = if tier == "thorough" { 1 } else { 23 };
+    for f in SAMPLES {
+        let data = match sample(f) {
+            Some(d) => d,
+            None => continue,
+        };
+        let mut k = 0;
+        while k <= data.len() {
+            emit(format!("doc {}", hex(&data[.. k])));
+            k += stride;
+        }
+        emit(format!("doc {}", hex(&data)));
+    }
+    let mut r = Rng::new(seed.wrapping_mul(7919).wrapping_add(17));
+    for _ in 0 .. n / 4 {
+        let f = SAMPLES[r.below(SAMPLES.len())];
+        let sd = r.below(1_000_000) as u64;
+        let k = r.below(4) + 1;
+        if let Some(d) = sample(f) {
+            emit(format!("doc {}", hex(&mutate(d, sd, k))));
+        }
+    }
+}
+
 fn bytes_of_case(w: &[&str]) -> Option<Vec<u8>> {
     match w[0] {
         "doc" if w.len() == 2 => Some(unhex(w[1])),
         "prefix" if w.len() == 3 => {
-            let data = std::fs::read(format!("{}/tests/test_files/{}", repo_dir(), w[1])).ok()?;
+            let data = sample(w[1])?;
             let n: usize = w[2].parse().ok()?;
             Some(data[.. n.min(data.len())].to_vec())
         },
-        "mut" if w.len() == 4 => {
-            let mut data = std::fs::read(format!("{}/tests/test_files/{}", repo_dir(), w[1])).ok()?;
-            let mut r = Rng::new(w[2].parse().ok()?);
-            let k: usize = w[3].parse().ok()?;
-            let interesting: &[&[u8]] = &[b"-1", b"0", b"9223372036854775807", b"[", b"]", b"<<", b">>", b"R", b"/", b"(", b")"];
-            for _ in 0 .. k {
-                if data.is_empty() {
-                    break
-                }
-                let pos = r.below(data.len());
-                match r.below(4) {
-                    0 => data[pos] = r.below(256) as u8,
-                    1 => {
-                        data.remove(pos);
-                    },
-                    2 => {
-                        let ins = interesting[r.below(interesting.len())];
-                        for (j, b) in ins.iter().enumerate() {
-                            data.insert(pos + j, *b);
-                        }
-                    },
-                    _ => {
-                        // digit tweak: find next digit and change it
-                        if let Some(off) = data[pos ..].iter().position(|b| b.is_ascii_digit()) {
-                            data[pos + off] = b'0' + (r.below(10) as u8);
-                        }
-                    },
-                }
-            }
-            Some(data)
-        },
+        "mut" if w.len() == 4 => Some(mutate(sample(w[1])?, w[2].parse().ok()?, w[3].parse().ok()?)),
         _ => None,
     }
 }
@@ -107,8 +141,8 @@ fn run(line: &str) -> String {
     match status {
         None => "abnormal timeout".to_string(),
         Some(st) => match (st.code(), st.signal()) {
-            (Some(0), _) => "terminates-normally completed".to_string(),
-            (Some(1), _) => "terminates-normally rejected".to_string(),
+            (Some(0), _) => "completed".to_string(),
+            (Some(1), _) => "rejected".to_string(),
             (Some(101), _) => "abnormal panic exit=101".to_string(),
             (Some(c), _) => format!("abnormal exit exit={}", c),
             (None, Some(s)) => format!("abnormal signal sig={}", s),
@@ -120,7 +154,7 @@ fn run(line: &str) -> String {
 fn main() {
     main_loop(Harness {
         run,
-        gen: None,
+        gen: Some(gen),
         extract: None,
     })
 }
